@@ -120,7 +120,8 @@ func freePort() string {
 
 var nutsEnv = []string{"NUTS_DATADIR", "NUTS_CONFIGFILE", "NUTS_HTTP_INTERNAL_ADDRESS", "NUTS_HTTP_PUBLIC_ADDRESS", "NUTS_NETWORK_GRPCADDR",
 	"NUTS_EVENTS_NATS_PORT", "NUTS_EVENTS_NATS_HOSTNAME", "NUTS_URL", "NUTS_DIDMETHODS", "NUTS_VERBOSITY", "NUTS_CRYPTO_STORAGE", "NUTS_STRICTMODE",
-	"NUTS_AUTH_CONTRACTVALIDATORS", "NUTS_AUTH_IRMA_AUTOUPDATESCHEMAS", "NUTS_NETWORK_ENABLEDISCOVERY", "NUTS_HTTP_LOG", "NUTS_DISCOVERY_CLIENT_REFRESHINTERVAL"}
+	"NUTS_AUTH_CONTRACTVALIDATORS", "NUTS_AUTH_IRMA_AUTOUPDATESCHEMAS", "NUTS_NETWORK_ENABLEDISCOVERY", "NUTS_HTTP_LOG", "NUTS_DISCOVERY_CLIENT_REFRESHINTERVAL",
+	"NUTS_CRYPTO_VAULT_ADDRESS", "NUTS_CRYPTO_VAULT_TOKEN", "NUTS_CRYPTO_VAULT_TIMEOUT", "NUTS_CRYPTO_VAULT_PATHPREFIX", "NUTS_CRYPTO_EXTERNAL_ADDRESS", "NUTS_CRYPTO_EXTERNAL_TIMEOUT", "NUTS_INTERNALRATELIMITER"}
 
 func startNode(t testing.TB) *node {
 	installLogCapture(t)
@@ -137,6 +138,9 @@ func startNode(t testing.TB) *node {
 
 // nodePrepare (optional) populates the data directory before the node starts: a non-initial start state.
 var nodePrepare func(dataDir string)
+
+// nodeEnvExtra (optional) overrides / adds configuration of the node to start (part "nodefaults": another key-storage back-end).
+var nodeEnvExtra map[string]string
 
 func startNodeOnce(t testing.TB) (*node, error) {
 	dir, err := os.MkdirTemp("", "c03node")
@@ -161,6 +165,9 @@ func startNodeOnce(t testing.TB) (*node, error) {
 		"NUTS_URL": "http://" + n.public, "NUTS_DIDMETHODS": "web,nuts", "NUTS_VERBOSITY": "trace", "NUTS_CRYPTO_STORAGE": "fs",
 		"NUTS_STRICTMODE": "false", "NUTS_AUTH_CONTRACTVALIDATORS": "dummy", "NUTS_AUTH_IRMA_AUTOUPDATESCHEMAS": "false",
 		"NUTS_NETWORK_ENABLEDISCOVERY": "false", "NUTS_HTTP_LOG": "metadata-and-body",
+	}
+	for k, v := range nodeEnvExtra {
+		env[k] = v
 	}
 	for k, v := range env {
 		os.Setenv(k, v)
